@@ -19,6 +19,7 @@ ASSUMPTIONS = [
  "compute-Finished-inner: PRF reached through br_ssl_engine_get_PRF and the transcript hash through br_multihash_out are recording stubs at the link seam",
 ]
 MUTANTS = [
+ "CAUGHT seeded/C03f-ssl-hs-server (copy-hash-CV tests the identifier range instead of br_multihash_getimpl: stale pad bytes become the CertificateVerify hash): t0-hash-CV-hss-id{2..6}",
  "CAUGHT seeded/C03-finished-xor-compare (memcmp native accumulates the XOR of all byte differences): t0-memcmp-hsc-* and t0-memcmp-hss-* with LEN >= 2 (9 of 11 queries; LEN=1 is exact under XOR)",
  "CAUGHT ssl_hs_client.c memcmp native compares len-1 bytes: all six t0-memcmp-hsc-*",
  "CAUGHT ssl_hs_server.c compute-Finished-inner labels swapped: t0-finished-hss",
@@ -38,4 +39,7 @@ def queries():
                         desc="native `memcmp` of %s (Finished / saved_finished / session-id comparison): true exactly when all %d bytes are equal (region pair %d), all bytes symbolic" % (t0tool.PROGRAMS[key], ln, pair)))
         qs.append(Q("t0-finished-%s" % key, "C03_t0_finished.c", units=[], defs=["-DSIDE=%d" % side] + inc, unwind=66, timeout=120,
                     desc="native `compute-Finished-inner` of %s: PRF of the given id, master secret, label by direction, seed = transcript hash (TLS 1.2) or MD5||SHA-1 (TLS 1.0/1.1), 12 bytes into the pad; PRF and multihash are recording stubs" % t0tool.PROGRAMS[key]))
+    for hid in (0, 2, 3, 4, 5, 6):
+        qs.append(Q("t0-hash-CV-hss-id%d" % hid, "C03_t0_hashcv.c", units=[], defs=["-DSIDE=1", "-DT0N_NO_RUN=1", "-DID=%d" % hid] + _inc("hss"), unwind=210, timeout=200, backend="cadical",
+                    desc="natives compute-hash-CV + copy-hash-CV of ssl_hs_server.c, hash identifier %d: CertificateVerify hash = transcript digest of the named function, refused when the engine does not implement it (every implemented-set, every stale pad content); br_multihash_out recording stub" % hid))
     return qs
